@@ -29,8 +29,23 @@ def gen_cases(ctx, ntruth, nspell):
             if k % 2 == 1:
                 rng.shuffle(order)
             ind = systems.to_indict(rng, T, style=STYLES[k % len(STYLES)], order=order, with_params=wp)
+            if k % 3 == 2:
+                # a documented option that must not change the classification (it only concerns simplify() of long expressions)
+                ind["options"] = {"expression_simplification_threshold": rng.choice([10, 40, 100])}
             out.append({"indict": ind, "shape": shape, "truth_id": i, "style": STYLES[k % len(STYLES)], "stop": True, "pt_seed": rng.randrange(10 ** 9),
                         "check_numeric_rhs": False})
+    # long factored / nested linear right-hand sides (string form well above the default simplification threshold of 1000)
+    for j in range(2):
+        m = 14 + 4 * j
+        g = ["conductance_of_leak_channel_number_%02d" % i for i in range(m)]
+        E = ["reversal_potential_of_leak_channel_%02d" % i for i in range(m)]
+        terms = " ".join("- %s*(V_m - %s)" % (gi, Ei) for gi, Ei in zip(g, E))
+        rhs = "(%s + I_syn*R_in)/membrane_capacitance" % terms if j == 0 else "((%s) + ((I_syn)*(R_in)))/membrane_capacitance" % terms
+        dyn = [{"expression": "V_m' = " + rhs, "initial_value": "0"}, {"expression": "I_syn' = -I_syn/tau_syn", "initial_value": "1"}]
+        if j == 1:
+            dyn = dyn[::-1]
+        out.append({"indict": {"dynamics": dyn}, "shape": "long_factored", "truth_id": 10 ** 6 + j, "style": "long", "stop": True, "pt_seed": 5 + j,
+                    "check_numeric_rhs": False, "poly": False})
     return out
 
 
